@@ -1492,6 +1492,19 @@ def audit_static(ctx, case, h, ob):
 
         mo = guarded(h.max_order)
         ob.add("maxord", "rej" if mo[0] == "exc" else str(plain(mo[1])))
+        # ---- second extension round: adjacency_factor(h, t) is inside the Lean model (adjFactor): per node the sum over the
+        # other nodes with a non-zero adjacency entry of entry**t (integers: exact as floats)
+        ft = crc(salt, "afac", len(ob.lines)) % 4
+        af = guarded(L.adjacency_factor, h, ft) if ft else guarded(L.adjacency_factor, h)
+        ctx.count(f"adjacency_factor:t={ft}")
+        if af[0] == "exc":
+            ctx.violation(case, f"adjacency_factor(t={ft}) raised {af[1]}")
+        else:
+            st_, txt = guarded(lambda: ",".join(f"{to_nat(kind, k)}:{hgxv.enc_num(frac(v))}" for k, v in af[1].items()) if len(af[1]) else "-")
+            if st_ == "ok":
+                ob.add(f"afac {ft}", txt)
+            else:
+                ctx.violation(case, f"adjacency_factor(t={ft}): malformed result {txt}")
         if all_inc[0] == "ok":
             st_, txt = guarded(dict_str, all_inc[1])
             if st_ == "ok":
@@ -1950,6 +1963,22 @@ def audit_temporal(ctx, case, th, ob):
                     ob.add(f"tadjall {mo}", tdict_str(mats))
         except Exception as e:  # noqa: BLE001
             ctx.violation(case, f"temporal_adjacency_matrices_all_orders(max_order={mo}): malformed result " + type(e).__name__)
+    # ---- second extension round: annealed_adjacency_matrices_all_orders is inside the Lean model (annealedOne /
+    # annealedAllOrders): per order the sum of the per-time matrices divided by the number of times; raises when the
+    # snapshots have different numbers of nodes (inconsistent shapes). Division by T: compared within 1e-9 relative.
+    if exact:
+        res = guarded(L.annealed_adjacency_matrices_all_orders, th)
+        ctx.count("annealed_all_orders:" + ("raises" if res[0] == "exc" else "dict"))
+        if res[0] == "exc":
+            ob.add("annall", "rej")
+        else:
+            returned.append(res[1])
+            try:
+                ob.add("annall", hgxv.enc_list([plain(k) for k in res[1].keys()]))
+                for d_, M_ in res[1].items():
+                    ob.add(f"annord {plain(d_)}", "~" + mat_str(dense(M_)[2]))
+            except Exception as e:  # noqa: BLE001
+                ctx.violation(case, "annealed_adjacency_matrices_all_orders: malformed result " + type(e).__name__)
     multi = any(len([1 for (tt, _) in recs if tt == t]) >= 2 for t in times)
     scribble(returned)
     return repr(("temporal", sorted((t, sorted(map(repr, e)), str(w)) for (t, e), w in zip(recs, wts)))), multi and len(times) >= 2
